@@ -6,7 +6,7 @@ SEEDS=${@:-$(ls seeded)}
 for s in $SEEDS; do
   prop=$(python3 -c "import json;print(json.load(open('seeded/$s/meta.json'))['breaks_property'])")
   if ! git -C /repo diff --quiet; then echo "/repo working tree is dirty: refusing"; exit 3; fi
-  git -C /repo apply seeded/$s/patch.diff || { echo "$s: patch does not apply"; continue; }
+  git -C /repo apply /verif/seeded/$s/patch.diff || { echo "$s: patch does not apply"; continue; }
   for tier in quick thorough; do
     ./check $prop --tier $tier > .logs/seed_$s.$tier.txt 2>&1; rc=$?
     v=$(grep -c "^VIOLATION" .logs/seed_$s.$tier.txt)
